@@ -1,7 +1,7 @@
 CONSTANTS
  Alphabet = {97, 32, 44, 39, 33, 38, 61}
  MaxBody = 4
- CodeLimits = {4, 7}
+ CodeLimits = {5}
  DirLimits = {11}
  LinePrefixes <- PrefixesStd
 INIT Init
